@@ -7,6 +7,8 @@ import CocoVerif.Model.Img
 import CocoVerif.Model.Compile
 import CocoVerif.Model.ProcBank
 import CocoVerif.Model.Cli
+import CocoVerif.Model.Names
+import CocoVerif.Props.C07
 import CocoVerif.Props.C14
 import CocoVerif.Gen.EcbHelpers
 
@@ -204,6 +206,33 @@ def handleCli (lib : String) (args : List String) : String :=
       | none => "bad-op"
   | _ => "bad-op"
 
+/-- block keywords read back from emitted text (one keyword per line that is a block keyword line) -/
+def scanKw (text : String) : List CocoVerif.Props.C07.Kw :=
+  (text.splitOn "\n").filterMap (fun l =>
+    let t := l.trimAscii.toString
+    -- a label in front of the keyword
+    let t := if t.toList.head?.map Char.isDigit == some true then
+        (String.ofList ((t.toList.dropWhile Char.isDigit).dropWhile (· == ' '))) else t
+    -- hoisted calls in front of an IF
+    let t := match (t.splitOn " \\ ").getLast? with | some x => x | none => t
+    if t == "ELSE" then some .else_ else if t == "ENDIF" then some .endif else if t == "LOOP" then some .loop
+    else if t == "ENDLOOP" then some .endloop else if t == "ENDEXIT" then some .endexit
+    else if t.startsWith "EXITIF " && t.endsWith " THEN" then some .exitif
+    else if t.startsWith "IF " && t.endsWith " THEN" then some .if_
+    else none)
+
+/-- `skel <sexpHex>`: does `Props.C07.skel` describe the block keywords `Emit` writes for this AST? -/
+def handleSkel (args : List String) : String :=
+  match args with
+  | [sx] =>
+    match (unhexStr sx).bind Sx.parse |>.bind Ast.progOf with
+    | none => "bad-op ast"
+    | some p =>
+      let bodies := p.lines.map (·.body)
+      let text := "\n".intercalate (bodies.map (Emit.stmt 0 true))
+      if scanKw text == CocoVerif.Props.C07.skels bodies then "ok same" else "ok differ"
+  | _ => "bad-op"
+
 def handle (lib : String) (line : String) : String :=
   match (line.trimAscii.toString.splitOn " ") with
   | "img" :: args => handleImg args
@@ -211,9 +240,17 @@ def handle (lib : String) (line : String) : String :=
   | "procbank" :: args => handleProcBank args
   | "lib" :: args => handleLib args
   | "cli" :: args => handleCli lib args
+  | "skel" :: args => handleSkel args
   | ["c14table"] =>
       "ok " ++ ";".intercalate (CocoVerif.Props.C14.emittedCalls.map (fun c =>
         c.2.1 ++ "|" ++ ",".intercalate c.2.2.1 ++ "|" ++ (if c.2.2.2 then "1" else "0")))
+  | ["xlname", k, n] =>
+      (match unhexStr n with
+       | some nm =>
+          let kind := if k == "scalar" then Names.Kind.scalar else if k == "str" then Names.Kind.strScalar
+            else if k == "array" then Names.Kind.array else Names.Kind.strArray
+          "ok " ++ hexStr (String.ofList (Names.xl nm.toList kind))
+       | none => "bad-op")
   | ["ping"] => "ok pong"
   | _ => "bad-op"
 
